@@ -135,6 +135,8 @@ def run(prop, tier, seed, replay, work, t0):
     if gen_info is not None:
         for p in gen_info.get('problems', []):
             broken.append({'what': 'source-derived obligation', 'detail': p})
+    for pr in lib.isolation_obligations(prop, mod, work):
+        broken.append({'what': 'instance-isolation obligation', 'detail': pr})
     # ---------------------------------------------------------------- B. correspondence
     params = mod.THOROUGH if tier == 'thorough' else mod.QUICK
     jobs = []
